@@ -320,6 +320,26 @@ def run(repo: Repo, ctx) -> None:
                f'{op} is given a non-zero lower bound ({rets}): '
                f'{{1}} {op.split("::")[1].lower()} {{1}}-style results can '
                f'be empty whatever the operands', oc.loc, sample=rets)
+    # A EXCEPT B is bounded above by A alone: the other operand being small
+    # does not make the result small
+    body = arms.get('std::EXCEPT') or []
+    acc = {norm(c.func.value) for c in ast.walk(oc.node)
+           if isinstance(c, ast.Call) and isinstance(c.func, ast.Attribute)
+           and c.func.attr == 'append' and isinstance(
+               c.func.value, ast.Name)}
+    whole, first = [], []
+    for st in body:
+        subs = {id(x.value) for x in ast.walk(st) if isinstance(
+            x, ast.Subscript) and norm(x.slice) == '0'}
+        for x in ast.walk(st):
+            if isinstance(x, ast.Name) and x.id in acc:
+                (first if id(x) in subs else whole).append(x)
+    ctx.ob('C06.R5', 'cardinality:std::EXCEPT:upper-of-first-operand',
+           bool(first) and not whole,
+           'the EXCEPT arm combines the bounds of all operands instead of '
+           'taking the first operand\'s: {1, 2, 3} EXCEPT {1} has two '
+           'elements but is bounded by the second operand (AT_MOST_ONE)',
+           oc.loc, sample='cards[0]')
     body = arms.get('std::UNION')
     rets = [r for st in (body or []) for r in ast.walk(st)
             if isinstance(r, ast.Return)]
@@ -772,6 +792,36 @@ def _r7(repo: Repo, ctx) -> None:
                  '{"a","b"}) yields {1, 1} but is classified by its input '
                  'alone', mf.loc)
     else:
+        # the guard covers every parameter kind that is applied
+        # element-wise: all modifiers except SET OF
+        tm = repo.classes.get('edb.edgeql.qltypes.TypeModifier')
+        members = [t.id for st in (tm.node.body if tm else [])
+                   if isinstance(st, ast.Assign) for t in st.targets
+                   if isinstance(t, ast.Name)]
+        if 'SetOfType' not in members or len(members) < 3:
+            raise AnalysisError('C06.R7: TypeModifier members not found')
+        cmp_ = [c for c in ast.walk(ew[0].ast) if isinstance(c, ast.Compare)
+                and norm(c.left).endswith('param_typemod')
+                and len(c.ops) == 1]
+        if not cmp_:
+            raise AnalysisError('C06.R7: param_typemod comparison of the '
+                                'element-wise guard not found')
+        c = cmp_[0]
+        rhs = c.comparators[0]
+        named = {norm(e).split('.')[-1] for e in (
+            rhs.elts if isinstance(rhs, (ast.Tuple, ast.List, ast.Set))
+            else [rhs])}
+        neg = isinstance(c.ops[0], (ast.IsNot, ast.NotEq, ast.NotIn))
+        covered = {mb for mb in members if (mb in named) != neg}
+        want = set(members) - {'SetOfType'}
+        ctx.ob('C06.R7', 'multiplicity:func:elementwise-guard-covers',
+               covered == want,
+               f'the element-wise guard of multiplicity.__infer_func_call '
+               f'holds for parameters that are {sorted(covered)} but the '
+               f'call is applied per element for {sorted(want)}: a multi '
+               f'set bound to an OPTIONAL parameter repeats results and is '
+               f'still classified by its input alone', mf.loc,
+               sample=norm(c))
         F = Facts({norm(ew[0].ast): True, 'card.is_single()': False},
                   mf.node)
         lv = [norm(x) for r in open_returns(g, F) if r.value is not None
